@@ -578,12 +578,23 @@ class t2listing(object):
             self.skip_to_nonblank()
             tname = 'element'
             nelt_tables = 0
-        else: tname = last_tablename
+            at_header = True
+        else:
+            tname = last_tablename
+            # number of element tables passed so far, from the order of the tables in the file:
+            order = ['element', 'element1', 'connection', 'primary', 'element2', 'generation']
+            if tname in order:
+                nelt_tables = len([t for t in order[:order.index(tname) + 1]
+                                   if t.startswith('element')]) - 1
+            at_header = False # rows of the last table have already been read
         while tname != tablename:
-            if tname == 'primary': keyword='_____'
-            else: keyword = '@@@@@'
-            self.skipto(keyword,0)
+            if tname == 'primary':
+                # the primary table has a line of underscores below its header as well as at its end:
+                if at_header: self.skipto('_____',0)
+            else: self.skipto('@@@@@',0)
             tname = self.next_table_TOUGHplus()
+            at_header = True
+            if tname is None: raise Exception('Table ' + tablename + ' not found in listing file.')
             if tname == 'element':
                 nelt_tables += 1
                 tname += str(nelt_tables)
